@@ -78,8 +78,8 @@ func (t hostile) String() string {
 
 func init() {
 	h.Register(&h.Check{
-		ID:   "C07",
-		Rule: "complete product format x length-bytes x declared length x bytes present x nesting depth x enclosing declared count; honest inputs of 2^k bytes for every format; all texts up to k bytes over byte / 24-symbol alphabets behind a valid header; each decoded by the real decoder in an rlimited worker, oracle = normal return and heap allocation delta <= 64 KiB + 2048 B per input byte; non-trivial = input decoded and measured",
+		ID:          "C07",
+		Rule:        "complete product format x length-bytes x declared length x bytes present x nesting depth x enclosing declared count; honest inputs of 2^k bytes for every format; all texts up to k bytes over byte / 24-symbol alphabets behind a valid header; each decoded by the real decoder in an rlimited worker, oracle = normal return and heap allocation delta <= 64 KiB + 2048 B per input byte; non-trivial = input decoded and measured",
 		Assumptions: []string{"allocation constants are measured, not derived: worst honest input (lists of empty items) allocates about 530 B per input byte on this tree"},
 		WatchdogSec: 120,
 		Build: func(tier string, seed int64) []h.Space {
@@ -248,7 +248,10 @@ func init() {
 			// every header byte value x position on a short and on a hostile message; short inputs
 			base := [][]byte{hdr(1, 1, []byte{0xA5, 0x01, 0x07}), hdr(1, 1, []byte{0x03, 0xFF, 0xFF, 0xFF}), hdr(1, 1, nil)}
 			sp = append(sp, h.Space{Name: "header-bytes-x-values", Count: product(len(base), 14, 256),
-				Describe: func(i uint64) interface{} { d := unrank(i, len(base), 14, 256); return fmt.Sprintf("message %d with byte %d = %d", d[0], d[1], d[2]) },
+				Describe: func(i uint64) interface{} {
+					d := unrank(i, len(base), 14, 256)
+					return fmt.Sprintf("message %d with byte %d = %d", d[0], d[1], d[2])
+				},
 				Run: func(c *h.Ctx, i uint64) {
 					d := unrank(i, len(base), 14, 256)
 					x := append([]byte{}, base[d[0]]...)
